@@ -683,13 +683,31 @@ fn test_components() {
     assert_eq!(set.get_components().len(), 2);
 }
 
+/// 单独散列化一个词项
+/// * 🎯用于「与顺序无关」的散列化：先各自散列化，再用可交换的运算合并
+fn hash_term_alone(term: &Term) -> u64 {
+    use std::hash::Hasher;
+    let mut hasher = std::collections::hash_map::DefaultHasher::new();
+    term.hash(&mut hasher);
+    hasher.finish()
+}
+
 /// 散列化「无序不重复词项容器」
-/// * ⚠️潜在假设：集合相同⇒遍历顺序相同⇒散列化顺序相同⇒散列化结果相同
+/// * 📌相等的集合必须散列化出相同的结果，而[`HashSet`]的遍历顺序因实例而异
+///   * 🚩各元素单独散列化，再以「可交换」的方式（回绕加法）合并，使结果与遍历顺序无关
 fn hash_term_set<H: std::hash::Hasher>(set: &TermSetType, state: &mut H) {
-    // 逐个元素散列化
+    let mut combined: u64 = 0;
     for term in set {
-        term.hash(state)
+        combined = combined.wrapping_add(hash_term_alone(term));
     }
+    state.write_usize(set.len());
+    state.write_u64(combined);
+}
+
+/// 散列化「二元无序」词项对
+/// * 📌`<A <-> B>`与`<B <-> A>`相等，故其散列化结果须与两词项的顺序无关
+fn hash_term_pair_unordered<H: std::hash::Hasher>(t1: &Term, t2: &Term, state: &mut H) {
+    state.write_u64(hash_term_alone(t1).wrapping_add(hash_term_alone(t2)));
 }
 
 /// 实现/散列化逻辑
@@ -748,16 +766,17 @@ impl Hash for Term {
             ConjunctionParallel(set) => hash_term_set(set, state),
             // 陈述
             Inheritance(t1, t2)
-            | Similarity(t1, t2)
             | Implication(t1, t2)
-            | Equivalence(t1, t2)
             | ImplicationPredictive(t1, t2)
             | ImplicationConcurrent(t1, t2)
             | ImplicationRetrospective(t1, t2)
-            | EquivalencePredictive(t1, t2)
-            | EquivalenceConcurrent(t1, t2) => {
+            | EquivalencePredictive(t1, t2) => {
                 t1.hash(state);
                 t2.hash(state);
+            }
+            // 对称陈述：判等时不分主谓顺序，散列化亦然
+            Similarity(t1, t2) | Equivalence(t1, t2) | EquivalenceConcurrent(t1, t2) => {
+                hash_term_pair_unordered(t1, t2, state)
             }
         }
     }
